@@ -12,7 +12,8 @@ ALL = [("G06_datachecker", "tools.tr.tr_datachecker", "write"),
        ("G15_consts", "tools.tr.tr_dht_consts", "write"),
        ("G19_db", "tools.tr.tr_db", "write"),
        ("G07_consts", "tools.tr.tr_tunnel_ep", "write"),
-       ("G11_api+unload", "tools.tr.tr_lifecycle", "write")]
+       ("G11_api+unload", "tools.tr.tr_lifecycle", "write"),
+       ("G18_fp2", "tools.tr.tr_value", "write")]
 
 
 def main():
